@@ -91,3 +91,186 @@ def homog_compose(ctx, A, B_=None, d=2, side='before', **kw):
     ctx.check_true('frame/result-not-aliasing-b', not np.shares_memory(c.h_matrix, b.h_matrix))
     if src_a is not None:
         ctx.check_true('frame/source-target-kept', a._source is src_a and a._target is tgt_a)
+
+
+# ------------------------------------------------------------------ in-place
+def _inplace_cfgs(tier):
+    out = []
+    for d in (2, 3):
+        for a in B.HOMOG_ALL:
+            for b in B.HOMOG_ALL:
+                for side in ('before', 'after'):
+                    out.append(dict(A=a, B=b, d=d, side=side))
+    return out
+
+
+@contract('C03', 'homog_compose_inplace', configs=_inplace_cfgs, functions=FUNCS)
+def homog_compose_inplace(ctx, A, d, side, **kw):
+    """in-place composition: either refused (ValueError, receiver untouched)
+    or the receiver becomes the composed map *and still satisfies the class
+    invariant of its own class* (the inductive invariant for sequences)."""
+    T, S = B.menpo_mods()
+    Bn = kw['B']
+    a, ia = B.build_any(ctx, A, d, 'a')
+    b, ib = B.build_any(ctx, Bn, d, 'b')
+    a0 = a.copy()            # reference copy of the receiver (pre-state)
+    x = ctx.reals('x', (2, d))
+    ha, hb = a.h_matrix.copy(), b.h_matrix.copy()
+    try:
+        if side == 'before':
+            a.compose_before_inplace(b)
+        else:
+            a.compose_after_inplace(b)
+        accepted = True
+    except ValueError:
+        accepted = False
+    ctx.check_eq('frame/b-unchanged', b.h_matrix, hb)
+    if not accepted:
+        ctx.check_eq('refused/receiver-unchanged', a.h_matrix, ha)
+        ctx.check_true('refused/is-outside-declared-domain', not isinstance(b, a.composes_inplace_with))
+        return
+    if side == 'before':
+        y = b.apply(a0.apply(x))
+    else:
+        y = a0.apply(b.apply(x))
+    ctx.check_eq('law', a.apply(x), y)
+    check_honest(ctx, 'receiver', a, d)
+    ctx.check_eq('invertible/det=detA*detB', B.det(a.h_matrix), B.det(ha) * B.det(hb))
+    ctx.check_true('frame/receiver-not-aliasing-b', not np.shares_memory(a.h_matrix, b.h_matrix))
+
+
+# -------------------------------------------------------------------- chains
+def _opaque_transform(ctx, name, d):
+    T, S = B.menpo_mods()
+    F = ctx.opaque(name, d, d)
+
+    class Opaque(T.Transform):
+        """a pure row-wise transform that is not composable natively"""
+        n_dims = d
+
+        def _apply(self, x, **kwargs):
+            return F(x)
+    Opaque.__name__ = 'Opaque_' + name
+    return Opaque()
+
+
+def _chain_cfgs(tier):
+    out = []
+    kinds = ['Affine', 'Rotation', 'AlignmentSimilarity', 'Homogeneous', 'Opaque', 'Chain']
+    for d in (2, 3):
+        for a in kinds:
+            for b in ['Opaque', 'Chain']:
+                for side in ('before', 'after'):
+                    out.append(dict(A=a, B=b, d=d, side=side))
+        for a in ['Opaque', 'Chain']:
+            for b in ['Affine', 'Translation', 'AlignmentRotation']:
+                for side in ('before', 'after'):
+                    out.append(dict(A=a, B=b, d=d, side=side))
+    return out
+
+
+def _mk(ctx, kind, d, tag):
+    T, S = B.menpo_mods()
+    if kind == 'Opaque':
+        return _opaque_transform(ctx, tag + 'F', d)
+    if kind == 'Chain':
+        m1 = _opaque_transform(ctx, tag + 'G', d)
+        m2, _ = B.build_any(ctx, 'Affine', d, tag + 'm')
+        return T.TransformChain([m1, m2])
+    return B.build_any(ctx, kind, d, tag)[0]
+
+
+CHAIN_FUNCS = [
+    'menpo.transform.base:Transform.compose_before',
+    'menpo.transform.base:Transform.compose_after',
+    'menpo.transform.base.composable:TransformChain._apply',
+    'menpo.transform.base.composable:TransformChain._compose_before_inplace',
+    'menpo.transform.base.composable:TransformChain._compose_after_inplace',
+    'menpo.transform.base.composable:ComposableTransform._compose_before',
+    'menpo.transform.base.composable:ComposableTransform._compose_after',
+    'menpo.base:Copyable.copy',
+]
+
+
+@contract('C03', 'chain_compose', configs=_chain_cfgs, functions=CHAIN_FUNCS)
+def chain_compose(ctx, A, d, side, **kw):
+    """pairs involving a non-homogeneous operand (opaque pure row-wise map,
+    standing for TPS / PWA / WithDims / RBF) or a chain: the result applies the
+    fold in the right order; operands and their member lists are untouched and
+    not aliased by the result."""
+    T, S = B.menpo_mods()
+    Bn = kw['B']
+    a = _mk(ctx, A, d, 'a')
+    b = _mk(ctx, Bn, d, 'b')
+    x = ctx.reals('x', (2, d))
+    la = list(a.transforms) if isinstance(a, T.TransformChain) else None
+    lb = list(b.transforms) if isinstance(b, T.TransformChain) else None
+    ida = a.transforms if la is not None else None
+    idb = b.transforms if lb is not None else None
+    ya, yb = a.apply(x), b.apply(x)
+    if side == 'before':
+        c = a.compose_before(b)
+        y = b.apply(a.apply(x))
+    else:
+        c = a.compose_after(b)
+        y = a.apply(b.apply(x))
+    ctx.check_eq('law', c.apply(x), y)
+    ctx.check_true('result-is-transform', isinstance(c, T.Transform))
+    for nm, o, l0, id0 in (('a', a, la, ida), ('b', b, lb, idb)):
+        if l0 is not None:
+            ctx.check_true('frame/%s-list-object-kept' % nm, o.transforms is id0)
+            ctx.check_true('frame/%s-members-unchanged' % nm, len(o.transforms) == len(l0) and all(p is q for p, q in zip(o.transforms, l0)))
+            if isinstance(c, T.TransformChain):
+                ctx.check_true('frame/result-list-not-aliasing-%s' % nm, c.transforms is not o.transforms)
+    ctx.check_eq('frame/a-same-map', a.apply(x), ya)
+    ctx.check_eq('frame/b-same-map', b.apply(x), yb)
+    # in-place on a chain receiver
+    if isinstance(a, T.TransformChain):
+        a2 = a.copy()
+        ctx.check_true('copy/list-not-aliased', a2.transforms is not a.transforms)
+        if side == 'before':
+            a2.compose_before_inplace(b)
+        else:
+            a2.compose_after_inplace(b)
+        ctx.check_eq('inplace/law', a2.apply(x), y)
+        ctx.check_true('inplace/original-untouched', len(a.transforms) == len(la))
+
+
+# ------------------------------------------------------------------ decompose
+@contract('C03', 'affine_decompose', configs=[dict(d=2), dict(d=3)],
+          functions=['menpo.transform.homogeneous.affine:Affine.decompose', 'menpo.transform.homogeneous.scale:Scale',
+                     'menpo.transform.homogeneous.scale:UniformScale.__init__',
+                     'menpo.transform.homogeneous.scale:NonUniformScale.__init__',
+                     'menpo.transform.homogeneous.rotation:Rotation.__init__',
+                     'menpo.transform.homogeneous.translation:Translation.__init__'])
+def affine_decompose(ctx, d):
+    """the decomposition of an affine transform recomposes to it and every
+    part is honest (svd dependency contract)."""
+    T, S = B.menpo_mods()
+    a, ia = B.build(ctx, 'Affine', d, 'a')
+    x = ctx.reals('x', (2, d))
+    h0 = a.h_matrix.copy()
+    if ctx.sym:
+        # singular values of an invertible matrix are positive (consequence of
+        # det(L) = +-prod(s), stated as part of the svd dependency contract)
+        from vp.sreal import ENG
+        s = np.linalg.svd  # noqa
+        from vp import stubs
+        U, sv, Vt = stubs.svd(a.linear_component)
+        for e in sv:
+            ctx.assume(e > 0, 'svd: s>0 for invertible input')
+    parts = a.decompose()
+    ctx.check_true('four-parts', len(parts) == 4)
+    y = x
+    for p in parts:
+        y = p.apply(y)
+    ctx.check_eq('recompose/apply', y, a.apply(x))
+    c = parts[0]
+    for p in parts[1:]:
+        c = c.compose_before(p)
+    ctx.check_eq('recompose/matrix', c.h_matrix, h0)
+    for k, p in enumerate(parts):
+        check_honest(ctx, 'part%d' % k, p, d)
+    ctx.check_true('classes', type(parts[0]) is T.Rotation and type(parts[2]) is T.Rotation and type(parts[3]) is T.Translation
+                   and type(parts[1]) in (T.UniformScale, T.NonUniformScale))
+    ctx.check_eq('frame/a-unchanged', a.h_matrix, h0)
